@@ -36,10 +36,17 @@ pub fn parse_str_literal(meta: &Meta) -> crate::Result<Expr> {
         Meta::Path(_) => Err(Error::unsupported_format("path").with_span(meta)),
         Meta::List(_) => Err(Error::unsupported_format("list").with_span(meta)),
         Meta::NameValue(nv) => {
+            // A string literal that reaches the macro through a `macro_rules!` fragment is wrapped
+            // in an invisible group; it is still that string literal.
+            let mut value = &nv.value;
+            while let Expr::Group(group) = value {
+                value = &group.expr;
+            }
+
             if let Expr::Lit(syn::ExprLit {
                 lit: lit @ syn::Lit::Str(_),
                 ..
-            }) = &nv.value
+            }) = value
             {
                 Expr::from_value(lit)
             } else {
